@@ -8,8 +8,8 @@
    Guards: frames carry PID 256 or 257 (wf_frames); source level: plain two-byte
    AudioSpecificConfig, 0 <= ns, ns*90000 < 2^63, AAC frame + 7 < 8192, non-empty NAL (wf_mux). *)
 From Coq Require Import ZArith List Bool.
-From V Require Import Bytes C09Adts C09TsFrame C09TsWriter C09TsDemux
-  C09StreamProofs C09FrameProofs C09MuxProofs C09Proofs.
+From V Require Import Bytes C09Adts C09TsFrame C09TsWriter C09TsDemux C09TsHls
+  C09StreamProofs C09FrameProofs C09MuxProofs C09HlsProofs C09Proofs.
 Import ListNotations.
 Open Scope Z_scope.
 
@@ -116,6 +116,26 @@ Theorem C09_model_passes_mux : forall sps pps a cs, wf_mux a cs = true ->
 Proof. exact mux_passes. Qed.
 Print Assumptions C09_model_passes_mux.
 
+(* the HLS path (packetizers -> hls.SegmentGenerator -> one Writer per segment): the segment
+   generator flushes consecutive AAC frames as ONE frame (Header = first ADTS header, Payload =
+   first AU ++ following ADTS frames).  Such a frame is a chain of ADTS frames that parses back
+   to the source AAC frames in order ... *)
+Theorem C09_audio_group_chain : forall a pts g, asc_plain a = true -> forallb wf_haudio g = true ->
+  adts_parse (f_hdr (group_frame a pts g) ++ f_pay (group_frame a pts g)) =
+  Some (map (fun c => adts_expect a (c_pay c)) g).
+Proof. exact audio_group_chain. Qed.
+Print Assumptions C09_audio_group_chain.
+
+(* ... and for EVERY segmentation and audio grouping (hplan: any cut into segments, any
+   non-empty groups, group PTS within 100 ms of its first frame) the oracle applied to the
+   implementation's segments accepts the model's: per segment PAT/PMT and continuity, video
+   units = the carried NAL units in order (AUD/SPS/PPS layout, stamps), audio units = ADTS
+   chains covering the source AAC frames in order, nothing else *)
+Theorem C09_model_passes_hls : forall sps pps a plan, wf_hplan a plan = true ->
+  ok_hls sps pps a (plan_videos plan) (plan_audios plan) (hls_model sps pps a plan) = true.
+Proof. exact hls_passes. Qed.
+Print Assumptions C09_model_passes_hls.
+
 (* non-vacuity: a key frame needing stuffing in its only packet, an audio frame, a
    two-packet frame with PTS+DTS beyond 2^33, an in-band SPS (dropped) — guards hold, oracles accept *)
 Example C09_nonvacuous :
@@ -134,4 +154,15 @@ Example C09_nonvacuous :
   | MuxBytes out => ok_mux [0x67; 9] [0x68; 8] a cs out = true /\ length out = Z.to_nat (188 * 4)
   | MuxPanic => False
   end.
+Proof. vm_compute. repeat split; reflexivity. Qed.
+
+Example C09_nonvacuous_hls :
+  let a := {| asc_obj := 2; asc_sidx := 4; asc_chan := 2 |} in
+  let au n t := {| c_video := false; c_dts := t; c_pts := t; c_pay := repeat_byte 0x21 n |} in
+  let plan := [ [ HVideo {| c_video := true; c_dts := 0; c_pts := 40000000; c_pay := [0x65; 1; 2] |};
+                  HAudio 5 [au 3 0; au 200 23000000; au 7 46000000] ];
+                [ HAudio 9000 [au 1 70000000];
+                  HVideo {| c_video := true; c_dts := 40000000; c_pts := 40000000; c_pay := [0x41; 9] |} ] ] in
+  wf_hplan a plan = true /\ length (plan_audios plan) = 4%nat /\
+  ok_hls [0x67; 9] [0x68; 8] a (plan_videos plan) (plan_audios plan) (hls_model [0x67; 9] [0x68; 8] a plan) = true.
 Proof. vm_compute. repeat split; reflexivity. Qed.
